@@ -178,7 +178,7 @@ def gen_exact_numerals(rnd, n):
 
 
 # ------------------------------------------------------------------------------------- running
-def run_harness(exe, cases, wd, tag, procs, env=None, extra=(), timeout=900):
+def run_harness(exe, cases, wd, tag, procs, env=None, extra=(), timeout=3000):
     """runs the cases in `procs` parallel harness processes; returns the events in case order or raises"""
     procs = max(1, min(procs, len(cases)))
     per = (len(cases) + procs - 1) // procs
@@ -361,7 +361,7 @@ def build_cases(tier, seed, wd, res):
     # strings of the class alphabet: quick = all up to length 4 plus a seeded sample of the longer ones
     cut = 4 if quick else 5
     longer = [s for s in strings if len(s) > cut]
-    chosen = [s for s in strings if len(s) <= cut] + rnd.sample(longer, min(len(longer), 6000 if quick else 100000))
+    chosen = [s for s in strings if len(s) <= cut] + rnd.sample(longer, min(len(longer), 6000 if quick else 40000))
     for s in chosen:
         add({"dir": "sn", "in": concretize(s, rnd)}, "strings")
     for s in rnd.sample(chosen, min(len(chosen), 600 if quick else 6000)):
@@ -371,7 +371,7 @@ def build_cases(tier, seed, wd, res):
     for i, n in enumerate(numerals):
         p = positional(n["neg"], n["ds"], n["e"])
         add({"dir": "sn", "in": cps(p if i % 2 == 0 else variant(p, rnd))}, "numerals")
-        near = -6 <= n["e"] <= 20          # rounding is interesting where the numeral has a fraction or is a large integer
+        near = -4 <= n["e"] <= 18          # rounding is interesting where the numeral has a fraction or is a large integer
         for f in (fns if near and not quick else [fns[i % 3]]):
             if quick and not (-4 <= n["e"] <= 18 or i % 7 == 0):
                 continue
@@ -382,7 +382,7 @@ def build_cases(tier, seed, wd, res):
         for f in fns:
             add({"dir": f, "in": cps(s)}, "range-ends")
     # ties and their neighbours, exact expansions
-    for x in gen_ties(rnd, 30 if quick else 600):
+    for x in gen_ties(rnd, 30 if quick else 400):
         s = exact_decimal(x)
         for f in fns:
             add({"dir": f, "in": cps(s)}, "ties")
@@ -391,10 +391,10 @@ def build_cases(tier, seed, wd, res):
         for f in fns:
             add({"dir": f, "arg": a}, "specials")
     # exact expansions of random doubles
-    for s in gen_exact_numerals(rnd, 1500 if quick else 15000):
+    for s in gen_exact_numerals(rnd, 1500 if quick else 10000):
         add({"dir": "sn", "in": cps(s)}, "exact-expansions")
     # arbitrary doubles
-    for h in gen_doubles(rnd, 5000 if quick else 60000):
+    for h in gen_doubles(rnd, 5000 if quick else 40000):
         add({"dir": "ns", "bits": h}, "doubles")
     return cases, klass
 
@@ -445,7 +445,8 @@ def run(res, tier, seed):
     sub = [{k: v for k, v in c.items() if k != "_a"} for c in huge + rest]
     logdir = os.path.join(wd, "san")
     os.makedirs(logdir, exist_ok=True)
-    aenv = {"ASAN_OPTIONS": "detect_leaks=0:log_path=%s/asan" % logdir, "UBSAN_OPTIONS": "print_stacktrace=1:log_path=%s/ubsan" % logdir}
+    aenv = {"ASAN_OPTIONS": "detect_leaks=0:log_path=%s/asan" % logdir, "UBSAN_OPTIONS": "print_stacktrace=1:log_path=%s/ubsan" % logdir,
+            "C18_SANLOG": logdir}
     t1 = time.time()
     with ThreadPoolExecutor(max_workers=2) as ex:
         fa = ex.submit(run_harness, aexe, sub, wd, "asan", 4, aenv)
@@ -460,11 +461,6 @@ def run(res, tier, seed):
                 raise vlib.Infra("harness usage error (%s): %s" % (flavour, err))
             res.violation("harness (%s) terminated abnormally (rc=%s, %d of %d events): %s" % (flavour, rc, got, n, err[-300:]), evs[-5:])
             return
-    reports = {}
-    for p in glob.glob(os.path.join(logdir, "*")):
-        m = re.search(r"\.(\d+)$", p)
-        if m:
-            reports[int(m.group(1))] = reports.get(int(m.group(1)), "") + open(p, errors="replace").read()[:6000]
     for ev in aevents:
         ev["san"] = True
     allev = events + aevents
@@ -478,7 +474,7 @@ def run(res, tier, seed):
     flat = []
     for ev in allev:
         flat.append({"e": "Reset"})
-        flat.append({k: v for k, v in ev.items() if k not in ("san", "pid")})
+        flat.append({k: v for k, v in ev.items() if k not in ("san", "report")})
     rejects, st = vlib.tlc_validate_sharded(TRACE, flat, shards=nsh, tag="c18tv", timeout=3000)
     res.notes["tv_states"] = st["tv_states"]
     vlib.log("c18: TV done, total %.0fs, %d rejects" % (time.time() - t0, len(rejects)))
@@ -486,9 +482,7 @@ def run(res, tier, seed):
     for rj in sorted(rejects, key=lambda r: r["line"]):
         ev = allev[rj["line"] // 2]
         bad += 1
-        rep = reports.get(ev.get("pid"), "") if ev.get("san") else None
-        if ev.get("san") and "crash" in ev and not rep:
-            rep = ""
+        rep = ev.get("report", "") if ev.get("san") else None       # sanitizer report of the dead child
         key = classify(ev, rj["msg"], rep)
         if key and key in known:
             res.known(known[key])
@@ -500,10 +494,10 @@ def run(res, tier, seed):
                 what += " out=%r" % txt(ev["out"])[:60]
             if ev.get("san"):
                 what += " [asan build] " + " ".join(re.findall(r"(?:ERROR|SUMMARY|runtime error):[^\n]*", rep or ""))[:300]
-            res.violation(what[:600], [{"e": "Reset"}, {k: v for k, v in ev.items() if k not in ("san", "pid")}])
+            res.violation(what[:600], [{"e": "Reset"}, {k: v for k, v in ev.items() if k not in ("san", "report")}])
     res.cov["traces_validated_against_impl"] = len(allev) - bad
     res.add_mc(res._c18_num.result(), "MC_Numeral/NumSpec")
-    res.cov["distinct_nontrivial"] = len({vlib.canon_hash({k: v for k, v in ev.items() if k not in ("pid",)}) for ev in allev if nontrivial(ev)})
+    res.cov["distinct_nontrivial"] = len({vlib.canon_hash({k: v for k, v in ev.items() if k != "report"}) for ev in allev if nontrivial(ev)})
     res.cov["rule"] = ("one conversion event per case (string->number->string, double->string->number, round/floor/ceiling); "
                        "non-trivial = not a canonical integer of fewer than 10 characters (sn), not +0 (ns), a non-integer or huge argument (fn), "
                        "or the process died; distinct by hash of the recorded event")
@@ -541,7 +535,7 @@ def replay(path):
         return 2
     flat = []
     for ev in events:
-        flat += [{"e": "Reset"}, {k: v for k, v in ev.items() if k != "pid"}]
+        flat += [{"e": "Reset"}, {k: v for k, v in ev.items() if k != "report"}]
     rejects, _ = vlib.tlc_validate_sharded(TRACE, flat, shards=1, tag="c18replay")
     for r in rejects:
         ev = events[r["line"] // 2]
